@@ -331,12 +331,15 @@ class ConfTor(FakeTor):
         return rep
 
 
-def boot(table, no_defaults=False, echo=False, chunking=(1 << 30,), on_line=None, after_reply=None):
+def boot(table, no_defaults=False, echo=False, chunking=(1 << 30,), on_line=None, after_reply=None,
+         route="from_protocol", probe=None):
     """real TorControlProtocol + real TorConfig.from_protocol over a ConfTor.
     -> (cfg | None, failure | None, proto, tor, link)
     on_line(tor, line) / after_reply(tor, line, code) are called for every command line the attach
     sends (before its reply is produced / right after it was queued): what they put into the
-    outbox (e.g. ``tor.external_change``) reaches the client between two command round trips."""
+    outbox (e.g. ``tor.external_change``) reaches the client between two command round trips.
+    route: how the view is built ("from_protocol", "ctor" = TorConfig(proto), "attach_protocol" = TorConfig()
+    attached later); probe(cfg, phase) is called with the not-yet-ready object (ctor / attach_protocol only)."""
     from txtorcon import TorControlProtocol, TorConfig
     tor = ConfTor(table, no_defaults=no_defaults, echo=echo)
     proto = TorControlProtocol()
@@ -347,7 +350,24 @@ def boot(table, no_defaults=False, echo=False, chunking=(1 << 30,), on_line=None
     if after_reply is not None:
         tor.after_reply = [lambda line, code: after_reply(tor, line, code)]
     out = []
-    d = TorConfig.from_protocol(proto)
+    if route == "from_protocol":
+        d = TorConfig.from_protocol(proto)
+    elif route == "ctor":
+        # what from_protocol() does, but the object is in the caller's hands while it bootstraps
+        cfg = TorConfig(proto)
+        d = cfg.post_bootstrap
+        if probe is not None:
+            tor.on_line.append(lambda line: probe(cfg, "attaching"))
+            probe(cfg, "constructed")
+    elif route == "attach_protocol":
+        # a detached TorConfig that is attached to the running Tor later
+        cfg = TorConfig()
+        if probe is not None:
+            probe(cfg, "detached")
+            tor.on_line.append(lambda line: probe(cfg, "attaching"))
+        d = cfg.attach_protocol(proto)
+    else:
+        raise ValueError(route)
     d.addBoth(out.append)
     link.pump()
     if not out:
